@@ -180,17 +180,17 @@ func (o *zzOracle) UntilExpired(lockTS, ttl uint64, _ *oracle.Option) int64 {
 	return oracle.ExtractPhysical(lockTS) + int64(ttl) - o.nowMs
 }
 func (o *zzOracle) ValidateReadTS(context.Context, uint64, bool, *oracle.Option) error { return nil }
-func (o *zzOracle) Close()                                                           {}
+func (o *zzOracle) Close()                                                             {}
 
 // ---------------------------------------------------------------- MVCC model
 
 // Ghost status of the one foreign transaction of the model.
 const (
-	zzTxnCommitted = iota // finished: primary committed at commitTS (<= or > snapshot ts)
-	zzTxnRolledBack       // finished: rolled back
-	zzTxnLive             // pending, TTL not expired: answers "alive" `waits` more times, then finishes as `final`
-	zzTxnExpired          // pending, TTL expired: the first CheckTxnStatus rolls it back
-	zzTxnLivePushed       // pending large transaction: CheckTxnStatus pushes min_commit_ts beyond the reader
+	zzTxnCommitted  = iota // finished: primary committed at commitTS (<= or > snapshot ts)
+	zzTxnRolledBack        // finished: rolled back
+	zzTxnLive              // pending, TTL not expired: answers "alive" `waits` more times, then finishes as `final`
+	zzTxnExpired           // pending, TTL expired: the first CheckTxnStatus rolls it back
+	zzTxnLivePushed        // pending large transaction: CheckTxnStatus pushes min_commit_ts beyond the reader
 )
 
 type zzTxn struct {
@@ -235,12 +235,15 @@ type zzStore struct {
 	// respLevel: report the first lock met as a response-level error (pairs incomplete)
 	// instead of per-pair errors.
 	respLevel bool
+	// txnSize is reported in the lock info: below the client's threshold (16) locks are resolved
+	// one key at a time ("lite"), above it region by region.
+	txnSize uint64
 
 	// fault script: before answering the RPC number faultAt[i] (1-based, data RPCs only)
 	// apply topology event faultEv[i].
 	faultAt []int
 	faultEv []func()
-	rpcs    int // data RPCs (Get/BatchGet/Scan) received
+	rpcs    int  // data RPCs (Get/BatchGet/Scan) received
 	oneShot bool // answer the next data RPC with a bare EpochNotMatch (no current regions)
 	faults  int  // region errors actually returned to data RPCs
 
@@ -250,12 +253,12 @@ type zzStore struct {
 	blockedAnswers int
 	aliveKnown     bool  // the most recent CheckTxnStatus answer was "still alive, wait"
 	aliveToldAt    int64 // zzSleptNs() at that answer
-	badResolve     bool // a ResolveLock request contradicted the transaction's true outcome
+	badResolve     bool  // a ResolveLock request contradicted the transaction's true outcome
 	scanLimitBad   bool
 }
 
-func (s *zzStore) Close() error                  { return nil }
-func (s *zzStore) CloseAddr(addr string) error   { return nil }
+func (s *zzStore) Close() error                                { return nil }
+func (s *zzStore) CloseAddr(addr string) error                 { return nil }
 func (s *zzStore) SetEventListener(client.ClientEventListener) {}
 func (s *zzStore) SendRequestAsync(ctx context.Context, addr string, req *tikvrpc.Request, cb async.Callback[*tikvrpc.Response]) {
 	resp, err := s.SendRequest(ctx, addr, req, 0)
@@ -322,7 +325,7 @@ func (s *zzStore) read(r *zzRow, ver uint64, ctx *kvrpcpb.Context) ([]byte, uint
 			s.noteBlocked()
 			return nil, 0, &kvrpcpb.KeyError{Locked: &kvrpcpb.LockInfo{
 				PrimaryLock: t.primary, LockVersion: t.startTS, Key: r.key, LockTtl: t.ttl,
-				TxnSize: 1, LockType: op}}
+				TxnSize: s.txnSize, LockType: op}}
 		}
 	}
 	if r.newTS != 0 && ver >= r.newTS {
@@ -651,11 +654,11 @@ func (k *zzKVStore) close() {
 }
 
 func (k *zzKVStore) CheckVisibility(startTime uint64) error { return nil }
-func (k *zzKVStore) GetRegionCache() *locate.RegionCache     { return k.cache }
-func (k *zzKVStore) GetLockResolver() *txnlock.LockResolver  { return k.resolver }
-func (k *zzKVStore) GetTiKVClient() client.Client            { return k.cli }
-func (k *zzKVStore) GetOracle() oracle.Oracle                { return k.orc }
-func (k *zzKVStore) Go(f func()) error                       { k.gos++; go f(); return nil }
+func (k *zzKVStore) GetRegionCache() *locate.RegionCache    { return k.cache }
+func (k *zzKVStore) GetLockResolver() *txnlock.LockResolver { return k.resolver }
+func (k *zzKVStore) GetTiKVClient() client.Client           { return k.cli }
+func (k *zzKVStore) GetOracle() oracle.Oracle               { return k.orc }
+func (k *zzKVStore) Go(f func()) error                      { k.gos++; go f(); return nil }
 func (k *zzKVStore) SendReq(bo *retry.Backoffer, req *tikvrpc.Request, regionID locate.RegionVerID, timeout time.Duration) (*tikvrpc.Response, error) {
 	sender := locate.NewRegionRequestSender(k.cache, k.cli, k.orc)
 	resp, _, err := sender.SendReq(bo, req, regionID, timeout)
